@@ -38,6 +38,10 @@ type Scn struct {
 	Half   bool   `json:"half"`   // upstream transport offers CloseWrite
 	Need   int    `json:"need"`   // bytes the matcher in front of the proxy needs (prefetched)
 	Writes int    `json:"writes"` // the client's payload is sent in this many writes
+	// Retry: an upstream with two peers stands in front (policy 'first'); its first peer accepts,
+	// its second refuses, so the first attempt fails half-way and the connection is retried
+	// against the upstream described above
+	Retry bool `json:"retry,omitempty"`
 }
 
 var chunk = layer4.VerifPrefetchChunkSize()
@@ -73,6 +77,7 @@ type result struct {
 	dials        []string
 	server       *vnet.Conn
 	openAtReturn []string
+	halfDialled  []*vnet.Conn // connections opened by attempts that failed half-way
 }
 
 func execute(x *explore.Exec, sc *Scn) *result {
@@ -149,9 +154,22 @@ func execute(x *explore.Exec, sc *Scn) *result {
 				return cEnd.Plain(), nil
 			})
 		}
+		px := map[string]any{"handler": "proxy", "upstreams": []map[string]any{{"dial": dial}}}
+		if sc.Retry {
+			nw.Handle("10.0.0.20:80", func(client net.Addr) (net.Conn, error) {
+				cEnd, sEnd := vnet.Pipe("px-half", "half", client, vnet.TCP("10.0.0.20", 80))
+				res.halfDialled = append(res.halfDialled, cEnd)
+				vsched.GoNamed("half-open-peer", func() { io.Copy(io.Discard, sEnd); sEnd.Close() })
+				return cEnd, nil
+			})
+			nw.Handle("10.0.0.21:80", func(net.Addr) (net.Conn, error) { return nil, vnet.ErrRefused })
+			px["upstreams"] = []map[string]any{{"dial": []string{"10.0.0.20:80", "10.0.0.21:80"}}, {"dial": dial}}
+			px["load_balancing"] = map[string]any{"selection": map[string]any{"policy": "first"}, "try_duration": "1s", "try_interval": "250ms"}
+			px["health_checks"] = map[string]any{"passive": map[string]any{"fail_duration": "10s", "max_fails": 1}}
+		}
 		routes := []map[string]any{{
 			"match":  []map[string]any{{"h_need": map[string]any{"id": "m", "k": sc.Need, "mode": "peek"}}},
-			"handle": []map[string]any{{"handler": "proxy", "upstreams": []map[string]any{{"dial": dial}}}},
+			"handle": []map[string]any{px},
 		}}
 		srv := &layer4.Server{}
 		if err := json.Unmarshal(hm.J(routes), &srv.Routes); err != nil {
@@ -170,6 +188,11 @@ func execute(x *explore.Exec, sc *Scn) *result {
 			for i, u := range res.ups {
 				if u.clientEnd != nil && !u.clientEnd.Closed() {
 					res.openAtReturn = append(res.openAtReturn, fmt.Sprintf("upstream %d", i))
+				}
+			}
+			for i, c := range res.halfDialled {
+				if !c.Closed() {
+					res.openAtReturn = append(res.openAtReturn, fmt.Sprintf("connection %d to the first peer of the upstream whose second peer refused (abandoned attempt)", i))
 				}
 			}
 		})
@@ -248,8 +271,12 @@ func check(x *explore.Exec, sc *Scn, r *result) {
 		x.Observe("undecided")
 		return
 	}
-	if len(r.dials) != sc.Peers {
-		x.Fail("dial-count", "expected %d upstream connections, dialled %v; %s", sc.Peers, r.dials, desc())
+	wantDials := sc.Peers
+	if sc.Retry {
+		wantDials += 2 // the abandoned attempt: first peer accepted, second refused
+	}
+	if len(r.dials) != wantDials {
+		x.Fail("dial-count", "expected %d upstream connections, dialled %v; %s", wantDials, r.dials, desc())
 	}
 	for i, u := range r.ups {
 		// an upstream whose transport cannot half-close and which finishes first has closed
@@ -334,6 +361,14 @@ func scenarios(tier string, yield func(any) bool) {
 	if !bigScenarios(yield) {
 		return
 	}
+	// a first attempt that fails half-way, then a retry
+	for _, order := range []string{"client-first", "upstream-first"} {
+		for _, half := range []bool{true, false} {
+			if !yield(&Scn{C2U: 3, U2C: 1, Peers: 1, Order: order, Half: half, Need: 1, Writes: 1, Retry: true}) {
+				return
+			}
+		}
+	}
 	for _, peers := range []int{1, 2} {
 		for _, half := range []bool{true, false} {
 			for _, order := range []string{"client-first", "upstream-first", "both", "client-abort", "upstream-abort"} {
@@ -399,7 +434,7 @@ func main() {
 	runner.Main(&runner.Harness{
 		ID:    "C03",
 		Level: "model_checking",
-		Rule:  "client->upstream and upstream->client payloads {0,1,3,chunk+1 bytes, position-coded} in 1-2 writes x who finishes first {client half-closes, upstreams half-close, both, client aborts, upstream aborts mid-stream} x 1 or 2 peers per upstream x upstream transport with/without half-close x matcher in front of the proxy needing 1 or 3 bytes (so the stream starts in the prefetch buffer), plus a client stream of limit+chunk+5 bytes behind a matcher needing limit-3 bytes (the matching buffer overshoots the limit under any unaligned read); every interleaving of the handler's goroutines, client and upstream threads, every short read, within the joint deviation budget (delay bounding: every scheduling choice other than 'continue, else lowest thread id' costs one; 3 for the 3-byte/1-byte single-peer exchange of every close order and transport, 2 otherwise; +1 and a wider core in thorough)",
+		Rule:  "client->upstream and upstream->client payloads {0,1,3,chunk+1 bytes, position-coded} in 1-2 writes x who finishes first {client half-closes, upstreams half-close, both, client aborts, upstream aborts mid-stream} x 1 or 2 peers per upstream (and a first attempt against a two-peer upstream whose second peer refuses, followed by a retry) x upstream transport with/without half-close x matcher in front of the proxy needing 1 or 3 bytes (so the stream starts in the prefetch buffer), plus a client stream of limit+chunk+5 bytes behind a matcher needing limit-3 bytes (the matching buffer overshoots the limit under any unaligned read); every interleaving of the handler's goroutines, client and upstream threads, every short read, within the joint deviation budget (delay bounding: every scheduling choice other than 'continue, else lowest thread id' costs one; 3 for the 3-byte/1-byte single-peer exchange of every close order and transport, 2 otherwise; +1 and a wider core in thorough)",
 		Assumptions: []string{
 			"payload sizes up to one prefetch chunk + 1, not MiB; kernel socket buffers are unbounded in the virtual network",
 			"TLS-terminated downstream is covered for byte-exactness by C01, not here",
